@@ -26,6 +26,22 @@ def has_star_expression(node):
     return False
 
 
+def contains_unmanaged(value, node):
+    """True if the value has parts which are controlled by the user
+    (Is(...), f-strings, star-expressions, ...)"""
+    if isinstance(value, Unmanaged) or isinstance(node, ast.JoinedStr):
+        return True
+    adapter = get_adapter_type(value)
+    if adapter is not None and hasattr(adapter, "items"):
+        if has_star_expression(node):
+            return True
+        return any(
+            contains_unmanaged(item.value, item.node)
+            for item in adapter.items(value, node)
+        )
+    return False
+
+
 class UndecidedValue(GenericValue):
     def __init__(self, old_value, ast_node, context: AdapterContext):
 
